@@ -158,6 +158,10 @@ Proof.
   unfold blt. intros a a' x y L H. rewrite bcmp_app_eq_len by exact L.
   destruct (bcmp a a'); try discriminate. reflexivity.
 Qed.
+(* ... and when the equal-length heads differ, the heads alone decide *)
+Lemma bcmp_app_decided : forall a a' x y, length a = length a' -> bcmp a a' <> Eq ->
+  bcmp (a ++ x) (a' ++ y) = bcmp a a'.
+Proof. intros a a' x y L N. rewrite bcmp_app_eq_len by exact L. destruct (bcmp a a'); [contradiction|reflexivity|reflexivity]. Qed.
 (* a prefix is below-or-equal its extensions; a proper prefix is strictly below *)
 Lemma ble_prefix : forall a x, ble a (a ++ x) = true.
 Proof. intros a x. rewrite <- (app_nil_r a) at 1. rewrite ble_app_l. apply ble_nil. Qed.
